@@ -1,5 +1,6 @@
 (** C11: a failed parse returns an error that locates the failure correctly. *)
-From PegV Require Import Base.Tac Spec.Syntax Spec.Peg Model.Machine Model.Runtime Model.Gen Proofs.Forest Proofs.RuntimeProofs Proofs.Top Properties.Example Model.Analyses Model.Emit Model.SEmit Model.Exec Proofs.SEmitFile.
+From PegV Require Import Base.Tac Spec.Syntax Spec.Peg Model.Machine Model.Runtime Model.Gen Proofs.Forest Proofs.RuntimeProofs Proofs.Top Properties.Example Model.Analyses Model.Emit Model.SEmit Model.Exec Proofs.SEmitFile Spec.WF Model.Optimize Model.Premises Proofs.OptSound Proofs.ParseTop.
+Local Open Scope nat_scope.
 
 (** Parse returns nil exactly when the entry rule matched (C01).  On failure the error's token is the
     first, in time order, of the non-empty tokens completed during the attempt (failed branches and
@@ -24,6 +25,24 @@ Theorem C11_generated_code_error_token :
       exists st', res = Ret false st' /\ maxtok st' = first_furthest evs /\ tok_ok (length buf) (maxtok st').
 Proof. exact generated_code_error_token. Qed.
 Print Assumptions C11_generated_code_error_token.
+
+(** ... with no hypothesis that the semantics has a result and no side condition on the emitter: for every grammar with a
+    well-formedness certificate, memo table on or off, -inline on or off, every input and every earlier parser state -
+    when the grammar as written rejects the input, every execution of the call Parse() makes returns false and leaves
+    that token in maxToken, within the input (Proofs/ParseTop.v). *)
+Theorem C11_generated_parser_error_token :
+  forall g tab rank, wf_b g tab rank = true -> good_grammar g ->
+  (forall r b, nth_error g r = Some (RBody b) -> ranges_ok b = true) ->
+  grammar_alt2 g -> closed_names g ->
+  forall ptx buf penv, good_buf buf ->
+  forall memo inline rb st0,
+    nth_error g 0 = Some rb -> rb <> RNil ->
+    exists n res evs, peg_parse g ptx buf penv n 0 = Some (res, evs) /\
+      (res = Fail ->
+       forall out, xcall buf penv (mk_opts true memo inline g) (gen_fn g ptx inline) 0 (reset st0) out ->
+         exists st', out = Ret false st' /\ maxtok st' = first_furthest evs /\ tok_ok (length buf) (maxtok st')).
+Proof. exact generated_parser_error_token. Qed.
+Print Assumptions C11_generated_parser_error_token.
 
 (** For every rune list and every token with begin <= end <= number of runes (in particular the error
     token, by the theorem above; also the empty input, offset 0 and end of input), the message fields
